@@ -688,6 +688,8 @@ pub trait Vec1View<T>: TIter<T> {
         if len == 0 {
             return;
         }
+        // `other` is read with unchecked indices up to len - 1
+        assert!(other.len() >= len, "the second series is shorter than the first");
         // returning early for window 0 would leave `out` unwritten
         assert!(window > 0, "window must be greater than 0");
         let window = window.min(len);
@@ -924,6 +926,8 @@ pub trait Vec1View<T>: TIter<T> {
         if len == 0 {
             return;
         }
+        // `other` is read with unchecked indices up to len - 1
+        assert!(other.len() >= len, "the second series is shorter than the first");
         // returning early for window 0 would leave `out` unwritten
         assert!(window > 0, "window must be greater than 0");
         let window = window.min(len);
